@@ -71,25 +71,31 @@ Definition ex_records : list record :=
     rec 3 30 "...meta" "meta" [S_ "format" "json"; I_ "length" 24] (PMeta ex_j4);
     rec 3 34 "...diff" "diff" [S_ "encoding" "utf-16-le"; I_ "length" 6; S_ "line_endings" "dos"] (PBytes ex_diff2) ].
 
+Lemma enc_ok_spelled : forall s,
+  (match lookup_codec (B s) with LOk _ _ => true | _ => false end) = true -> enc_ok (WStr (T s)).
+Proof.
+  intros s H. right. destruct (lookup_codec (B s)) as [canon c| |] eqn:E; try discriminate H.
+  exists (B s), canon, c. split; [reflexivity|exact E].
+Qed.
+
 Ltac enc_ok_tac :=
-  first [ left; reflexivity
-        | right; eexists _, _, _; split; [reflexivity | vm_compute; reflexivity] ].
+  first [ left; reflexivity | apply enc_ok_spelled; vm_compute; reflexivity ].
 
 Lemma ex_init : writer_init ex_enc0 ex_ver = (ex_s0, Ok tt).
 Proof. vm_compute. reflexivity. Qed.
 
 Lemma ex_enc0_ok : enc_ok ex_enc0.
-Proof. enc_ok_tac. Qed.
+Proof. unfold ex_enc0. enc_ok_tac. Qed.
 
 Lemma ex_le_dos : le_arg (WStr (T "dos")).
 Proof. apply (la_decl (B "dos")). cbn. auto. Qed.
 
-Lemma ex_good : Forall call_good' ex_cs.
-Proof.
-  unfold ex_cs. repeat constructor; cbn [call_good indent_ok];
-    try enc_ok_tac; try exact I; try (apply ia_int; lia); try apply la_none; try apply ex_le_dos;
-    try (eexists; reflexivity).
-Qed.
+Ltac good_tac :=
+  cbn [call_good indent_ok]; repeat split;
+  first [enc_ok_tac | exact I | apply ia_int; lia | apply la_none | apply ex_le_dos | eexists; reflexivity].
+
+Lemma ex_good : Forall call_good ex_cs.
+Proof. unfold ex_cs. repeat (apply Forall_cons; [good_tac|]). apply Forall_nil. Qed.
 
 Lemma ex_accepted : accepted ex_s0 ex_cs.
 Proof. unfold accepted. vm_compute. repeat constructor. Qed.
@@ -110,7 +116,7 @@ Proof. vm_compute. discriminate. Qed.
 (* 6. all hypotheses of C01_round_trip hold, and this is what the theorem says for the instance *)
 Example C01_round_trip_ex :
   writer_init ex_enc0 ex_ver = (ex_s0, Ok tt) /\ enc_ok ex_enc0 /\
-  Forall call_good' ex_cs /\ accepted ex_s0 ex_cs /\ guesses_ok ex_s0 ex_cs /\ oracle_ok ex_orc ex_cs /\
+  Forall call_good ex_cs /\ accepted ex_s0 ex_cs /\ guesses_ok ex_s0 ex_cs /\ oracle_ok ex_orc ex_cs /\
   (Z.of_nat (length (w_out (snd (run_calls ex_s0 ex_cs)))) <= sys_maxsize)%Z /\
   length (w_out (snd (run_calls ex_s0 ex_cs))) = 857 /\
   main_record ex_enc0 ex_ver :: expected_records ex_s0 1 ex_cs = ex_records /\
